@@ -12,7 +12,7 @@ from harness.c17 import dense_samples
 KINDS = ['discrete-offline', 'discrete-online', 'dense-offline', 'dense-online']
 
 
-def calls_for(kind, f, cols, times, n):
+def calls_for(kind, f, cols, times, n, rng=None):
     used = fml.fvars(f)
     if kind == 'discrete-offline':
         data = {'time': list(times)}
@@ -20,12 +20,19 @@ def calls_for(kind, f, cols, times, n):
             data[fml.VARS[i]] = list(cols[i])
         return [['evaluate', data], ['evaluate', data]]          # twice: repeatability
     if kind == 'discrete-online':
-        return [['update', k, [[fml.VARS[i], cols[i][k]] for i in used]] for k in range(n)]
+        return [['update', times[k], [[fml.VARS[i], cols[i][k]] for i in used]] for k in range(n)]
     if kind == 'dense-offline':
         d = [[fml.VARS[i], dense_samples(cols[i], times)] for i in used]
         return [['evaluate', d], ['evaluate', d]]
     d = [[fml.VARS[i], dense_samples(cols[i], times)] for i in used]
-    return [['update', d]]
+    if rng is None or n < 2 or rng.random() < 0.4:
+        return [['update', d]]
+    # several batches; half of the time the next batch starts with the last sample of the previous one (same time stamp, same value)
+    k = rng.randint(1, n - 1)
+    overlap = rng.random() < 0.5
+    first = [[name, smp[:k]] for name, smp in d]
+    second = [[name, smp[(k - 1 if overlap else k):]] for name, smp in d]
+    return [['update', first], ['update', second]]
 
 
 class C11(Check):
@@ -33,7 +40,7 @@ class C11(Check):
     SHRINK = False
     RULE = ('seeded random supported specifications for each of the four monitor kinds (bounded future operators whose window exceeds the trace, variables used '
             'several times); (a) the arguments of every evaluate()/update() are deep-compared before/after; (b) offline objects evaluate the same data twice; '
-            '(c) two or three objects (40% of the discrete ones with a twin that has the same text under another default time unit) are driven with interleaved calls and compared with each object driven alone; (d) every case is re-run in separate '
+            '(c) two or three objects (discrete ones with unary bounded operators often get a twin that has the same text under another default time unit, or under another sampling period); dense online objects get their signal in one or two update() batches, the second one often starting with the last sample of the first; are driven with interleaved calls and compared with each object driven alone; (d) every case is re-run in separate '
             'interpreters under PYTHONHASHSEED 0..3 and the results compared byte for byte; non-trivial = formula with a temporal operator; distinct by (programs, schedule)')
 
     def gen_cases(self, rng, tier):
@@ -60,13 +67,18 @@ class C11(Check):
                 nv = need_vars(f, nv)
                 n = rng.choice([1, 2, 3, 5])
                 cols = fml.gen_trace(rng, nv, n)
-                objs.append({'monitor': kind, 'vars': fml.VARS[:nv], 'spec': 'out = ' + fml.to_text(f), 'calls': calls_for(kind, f, cols, list(range(n)), n),
+                objs.append({'monitor': kind, 'vars': fml.VARS[:nv], 'spec': 'out = ' + fml.to_text(f), 'calls': calls_for(kind, f, cols, list(range(n)), n, rng),
                              '_f': fml.to_sx(f)})
                 if kind.startswith('discrete') and (fml.ops(f) & fml.TUN) and not (fml.ops(f) & fml.TBIN) and rng.random() < 0.5:
                     # a twin object: the same text (unit-less bounds) under another default unit, i.e. other bounds in samples
                     txt = 'out = ' + fml.to_text(f, lambda b, e: '[%d:%d]' % (b * 1000, e * 1000))
                     objs[-1].update({'spec': txt, 'unit': 'ms', 'period': [1, 's', 0.1]})
                     objs.append(dict(objs[-1], unit='s', calls=calls_for(kind, f, fml.gen_trace(rng, nv, n), list(range(n)), n)))
+                elif kind.startswith('discrete') and (fml.ops(f) & fml.TUN) and not (fml.ops(f) & fml.TBIN) and rng.random() < 0.5:
+                    # a twin object: the same text and unit under another sampling period (1 s / 2 s), i.e. other bounds in samples
+                    txt = 'out = ' + fml.to_text(f, lambda b, e: '[%d:%d]' % (b * 2, e * 2))
+                    objs[-1].update({'spec': txt, 'unit': 's', 'period': [2, 's', 0.1], 'calls': calls_for(kind, f, cols, [2 * k for k in range(n)], n)})
+                    objs.append(dict(objs[-1], period=[1, 's', 0.1], calls=calls_for(kind, f, fml.gen_trace(rng, nv, n), list(range(n)), n)))
             sched = [(oi, ci) for oi, o in enumerate(objs) for ci in range(len(o['calls']))]
             # random interleaving that keeps each object's own call order
             order, ptr = [], [0] * len(objs)
